@@ -4,12 +4,20 @@ import "fmt"
 
 // parseExpr parses an expression.
 func (t *Tree) parseExpr() (Expr, error) {
+	return t.parseExprPrec(0)
+}
+
+// parseExprPrec parses an expression in which every binary operator applied
+// at the top level has at least the given precedence (precedence climbing).
+// An operator of lower precedence, and the "?" of a conditional (which binds
+// loosest), are left for the caller.
+func (t *Tree) parseExprPrec(min int) (Expr, error) {
 	expr, err := t.parseInnerExpr()
 	if err != nil {
 		return nil, err
 	}
 
-	return t.parseOuterExpr(expr)
+	return t.parseOuterExprPrec(expr, min)
 }
 
 // parseOuterExpr attempts to parse an expression outside of an inner
@@ -17,6 +25,11 @@ func (t *Tree) parseExpr() (Expr, error) {
 // An outer expression is defined as a modification to an inner expression.
 // Examples include attribute accessing, filter application, or binary operations.
 func (t *Tree) parseOuterExpr(expr Expr) (Expr, error) {
+	return t.parseOuterExprPrec(expr, 0)
+}
+
+// parseOuterExprPrec is parseOuterExpr for an operand position: see parseExprPrec.
+func (t *Tree) parseOuterExprPrec(expr Expr, min int) (Expr, error) {
 	switch nt := t.nextNonSpace(); nt.tokenType {
 	case tokenParensOpen:
 		switch name := expr.(type) {
@@ -64,7 +77,7 @@ func (t *Tree) parseOuterExpr(expr Expr) (Expr, error) {
 					return nil, newUnexpectedTokenError(nt)
 				}
 			}
-			return t.parseOuterExpr(NewGetAttrExpr(expr, attr, args, nt.Pos))
+			return t.parseOuterExprPrec(NewGetAttrExpr(expr, attr, args, nt.Pos), min)
 
 		case "|": // Filter application
 
@@ -111,9 +124,15 @@ func (t *Tree) parseOuterExpr(expr Expr) (Expr, error) {
 			}
 
 			// Continue parsing potential outer expressions (including more filters)
-			return t.parseOuterExpr(resultExpr)
+			return t.parseOuterExprPrec(resultExpr, min)
 
 		case "?": // Ternary if
+			if min > 0 {
+				// the conditional binds loosest: its condition is the whole
+				// expression parsed so far, not this operand
+				t.backup()
+				return expr, nil
+			}
 			tx, err := t.parseExpr()
 			if err != nil {
 				return nil, err
@@ -139,6 +158,12 @@ func (t *Tree) parseOuterExpr(expr Expr) (Expr, error) {
 			return nil, newUnexpectedTokenError(nt)
 		}
 
+		if op.precedence < min {
+			// belongs to an enclosing (looser) operator
+			t.backup()
+			return expr, nil
+		}
+
 		var right Node
 		var err error
 		if op.op == OpBinaryIs || op.op == OpBinaryIsNot {
@@ -146,26 +171,20 @@ func (t *Tree) parseOuterExpr(expr Expr) (Expr, error) {
 			if err != nil {
 				return nil, err
 			}
-			// Handle ternary specially
-			if v := t.peekNonSpace(); v.tokenType == tokenPunctuation && v.value == "?" {
-				return t.parseOuterExpr(NewBinaryExpr(expr, op.Operator(), right, expr.Start()))
-			}
 		} else {
-			right, err = t.parseExpr()
+			// the right operand takes operators that bind tighter (or as tight,
+			// for a right-associative operator)
+			next := op.precedence
+			if op.leftAssoc() {
+				next++
+			}
+			right, err = t.parseExprPrec(next)
 			if err != nil {
 				return nil, err
 			}
-			if v, ok := right.(*BinaryExpr); ok {
-				nxop := binaryOperators[v.Op]
-				if nxop.precedence < op.precedence || (nxop.precedence == op.precedence && op.leftAssoc()) {
-					left := v.Left
-					res := NewBinaryExpr(expr, op.Operator(), left, expr.Start())
-					v.Left = res
-					return v, nil
-				}
-			}
 		}
-		return NewBinaryExpr(expr, op.Operator(), right, expr.Start()), nil
+		// further operators of at least the required precedence apply to the result
+		return t.parseOuterExprPrec(NewBinaryExpr(expr, op.Operator(), right, expr.Start()), min)
 
 	default:
 		t.backup()
@@ -218,7 +237,8 @@ func (t *Tree) parseInnerExpr() (Expr, error) {
 		if !ok {
 			return nil, newUnexpectedTokenError(tok)
 		}
-		expr, err := t.parseExpr()
+		// the operand extends over operators that bind tighter than the unary operator
+		expr, err := t.parseExprPrec(op.precedence)
 		if err != nil {
 			return nil, err
 		}
